@@ -66,7 +66,7 @@ Say(kind, r, what) == SayI(kind, r, what, "")
 Chk(cond, r, what) == cond \/ Say("fail", r, what)
 ChkI(cond, r, what, info) == cond \/ SayI("fail", r, what, info)
 \* the definition kinds of a set of tags, as a string in a fixed order (narrow signatures for known findings)
-KindOrder == <<"P", "D", "C", "L", "B", "E", "I", "M", "R", "N", "S", "?">>
+KindOrder == <<"P", "D", "C", "L", "B", "E", "Q", "I", "M", "R", "N", "S", "?">>
 KindsOf(T) ==
     LET ks == {tags[t].def.k : t \in T}
         RECURSIVE cat(_)
@@ -79,7 +79,7 @@ HasSub(t) == t \in DOMAIN tags /\ (tags[t].def.k = "S" \/ \E u \in Refs(tags[t].
 
 \* does the definition of tag t contain a payload filter, directly or through the tags it references?
 RECURSIVE HasPayload(_)
-HasPayload(t) == t \in DOMAIN tags /\ (tags[t].def.k \in {"D", "C"} \/ \E u \in Refs(tags[t].def) \cap DOMAIN tags : HasPayload(u))
+HasPayload(t) == t \in DOMAIN tags /\ (FeatPayload(tags[t].def) \/ \E u \in Refs(tags[t].def) \cap DOMAIN tags : HasPayload(u))
 \* signature of a set of offending tags: while a converter job is in flight its output is already in the cache, but tags with
 \* payload filters only learn about it when the job completes (known finding C06.*:convjob); otherwise the definition kinds
 SigOf(T) == IF flags.conv /\ T # {} /\ \A t \in T : HasPayload(t) THEN "convjob" ELSE KindsOf(T)
